@@ -61,13 +61,14 @@ theorem noninterference (step : Step G S Out) (g : G) (sched : List Nat) (st : N
       simp only [outputsOf, List.filter_cons, hji, decide_false]
       exact this
 
-/-- the access kinds that cannot modify a variable -/
-def readOnlyKinds : List String := ["read", "constarg"]
+/-- the access kinds that cannot modify a variable (`unevaluated` = operand of `sizeof`) -/
+def readOnlyKinds : List String := ["read", "constarg", "unevaluated"]
 
-/-- (ii-a) every reference to every variable with static storage duration in src/*.c is a read,
-    or passes its address to a parameter declared pointer-to-const -/
+/-- (ii-a) every variable with static storage duration in src/*.c is either declared `const`
+    (the whole object: a write to it does not compile) or every reference to it is a read, an
+    unevaluated operand, or passes its address to a parameter declared pointer-to-const -/
 theorem globals_read_only :
-    ∀ g ∈ Gen.globals, ∀ r ∈ g.2.2.2.2, r.2 ∈ readOnlyKinds := by decide
+    ∀ g ∈ Gen.globals, g.2.2.2.1 = true ∨ ∀ r ∈ g.2.2.2.2, r.2 ∈ readOnlyKinds := by decide
 
 /-- (ii-b) there is no function-local static variable -/
 theorem no_static_locals : ∀ g ∈ Gen.globals, g.2.2.1 = "file-scope" := by decide
